@@ -17,7 +17,7 @@ CONSTANTS
   WithNA = FALSE
   ExtraSet <- EX_none
   Export = TRUE
-  SampleMod = 4
+  SampleMod = 8
 INVARIANT NoRaise
 INVARIANT DisciplineHolds
 INVARIANT SameColumns
